@@ -963,7 +963,15 @@ impl<'t, 'a> Gen<'t, 'a> {
         let mut fields: Vec<(String, Ty)> = vec![];
         let mut members: Vec<Member> = vec![];
         for _ in 0..nf {
-            let cand = FIELD_NAMES[self.t.pick(FIELD_NAMES.len())].to_string();
+            // fields and methods live in separate name spaces: now and then a field is named like
+            // a method (of this object, of an ancestor, or like the built-ins `get` / `set`), which
+            // must not get in the way of calling that method
+            let cand = if self.t.chance(40) {
+                let pool = ["m", "go", "peek", "bump", "size", "twice", "id", "get", "set"];
+                pool[self.t.pick(pool.len())].to_string()
+            } else {
+                FIELD_NAMES[self.t.pick(FIELD_NAMES.len())].to_string()
+            };
             let fname = if fields.iter().any(|(n, _)| n == &cand) { self.unique("fld") } else { cand };
             let fty = self.random_ty(2, true);
             let init = self.expr(&fty, d);
@@ -989,7 +997,7 @@ impl<'t, 'a> Gen<'t, 'a> {
                 2 => ("get".to_string(), vec![Ty::Int]),
                 _ => ("set".to_string(), vec![Ty::Int, self.prim_ty()]),
             };
-            if self.classes[k].methods.iter().any(|m| m.name == mname) || fields.iter().any(|(n, _)| n == &mname) {
+            if self.classes[k].methods.iter().any(|m| m.name == mname) {
                 continue;
             }
             let ret = self.random_ty(1, true);
